@@ -5,7 +5,7 @@ From MV Require Import Base RotLemmas Record RecordLemmas Regex RegexLemmas Typi
      SrcEquivRegex SrcEquivRecord.
 From MV.Gen Require Import Src.
 From Coq Require Import String.
-Open Scope Z_scope.
+Local Open Scope Z_scope.
 
 (* is the record searched circularly: CircularRecord instance, or topology not "circular"
    after lower-casing (absent reads "circular") *)
@@ -38,6 +38,11 @@ Proof.
   fold (ent_circ e).
   destruct (search _ _ _ _ _); reflexivity.
 Qed.
+
+(* core/_utils.add_as_source, as translated: a whole-length source feature naming the plasmid is
+   appended to the fragment *)
+Lemma add_as_source_eq src dst : add_as_source src dst None = Ok (py_add_as_source src dst).
+Proof. reflexivity. Qed.
 
 Definition verdict_exc (v : verdict) (rec : pyrecord) : exc seqmatch :=
   match v with
@@ -221,7 +226,7 @@ Section Accessors.
     cbn [bind]. destruct (lshift_obs a (typing_nonempty _ _ _ _ Ht)) as (r' & E & Hs' & Hk).
     rewrite E. cbn [bind].
     destruct (getslice_rec r' None (Some (Z.of_nat b - Z.of_nat a))) as (r2 & E2 & Hs2 & _).
-    rewrite E2. cbn [bind obs py_add_as_source pr_seq]. rewrite Hs2, Hs', Hr.
+    rewrite E2. cbn [bind]. rewrite add_as_source_eq. cbn [bind obs py_add_as_source pr_seq]. rewrite Hs2, Hs', Hr.
     replace (Z.of_nat b - Z.of_nat a) with (Z.of_nat (b - a)) by lia.
     now rewrite py_slice_to.
   Qed.
@@ -238,7 +243,7 @@ Section Accessors.
     cbn [bind]. destruct (lshift_obs a (typing_nonempty _ _ _ _ Ht)) as (r' & E & Hs' & Hk).
     rewrite E. cbn [bind].
     destruct (getslice_rec r' (Some (Z.of_nat b - Z.of_nat a)) None) as (r2 & E2 & Hs2 & _).
-    rewrite E2. cbn [bind obs py_add_as_source pr_seq]. rewrite Hs2, Hs', Hr.
+    rewrite E2. cbn [bind]. rewrite add_as_source_eq. cbn [bind obs py_add_as_source pr_seq]. rewrite Hs2, Hs', Hr.
     replace (Z.of_nat b - Z.of_nat a) with (Z.of_nat (b - a)) by lia.
     now rewrite py_slice_from.
   Qed.
@@ -291,7 +296,7 @@ Proof.
   intros Hc Hne Ht. unfold AbstractModule_target_sequence. intros H.
   apply bind_ok in H. destruct H as ([a b] & _ & H).
   apply bind_ok in H. destruct H as (t13 & H13 & H).
-  apply bind_ok in H. destruct H as (t14 & H14 & H). inversion H; subst.
+  apply bind_ok in H. destruct H as (t14 & H14 & H). rewrite add_as_source_eq in H. inversion H; subst.
   pose proof (lshift_kind _ _ _ Hc Hne Ht H13) as K13.
   destruct (getslice_circular t13 None (Some (b - a)) K13) as (r' & E & _ & Hk).
   rewrite E in H14. inversion H14; subst. exact Hk.
@@ -304,8 +309,122 @@ Proof.
   intros Hc Hne Ht. unfold AbstractVector_target_sequence. intros H.
   apply bind_ok in H. destruct H as ([a b] & _ & H).
   apply bind_ok in H. destruct H as (t13 & H13 & H).
-  apply bind_ok in H. destruct H as (t14 & H14 & H). inversion H; subst.
+  apply bind_ok in H. destruct H as (t14 & H14 & H). rewrite add_as_source_eq in H. inversion H; subst.
   pose proof (lshift_kind _ _ _ Hc Hne Ht H13) as K13.
   destruct (getslice_circular t13 (Some (b - a)) None K13) as (r' & E & _ & Hk).
   rewrite E in H14. inversion H14; subst. exact Hk.
 Qed.
+
+(* ---------- target_sequence at the level of records: sequence AND feature table ---------- *)
+
+(* two records with the same sequence and the same feature table *)
+Definition same_sf (x y : record) : Prop := rseq x = rseq y /\ rfeats x = rfeats y.
+
+Lemma getslice_circular_record r lo hi : pr_kind r = KCircularRecord ->
+  let n := py_len (pr_seq r) in
+  let a := match lo with None => 0 | Some i => py_norm n i end in
+  let b := match hi with None => n | Some i => py_norm n i end in
+  exists r', py_getslice r lo hi = Ok r' /\ pr_kind r' = KSeqRecord /\ pr_id r' = pr_id r
+             /\ to_record r' = slice_record a (Z.max a b) (to_record r).
+Proof.
+  intros K n a b. unfold py_getslice, PyGetSlice_rec. rewrite K.
+  unfold CircularRecord_getitem_slice.
+  set (x := bio_getitem_slice r (lo, hi)).
+  assert (Hx : to_record x = slice_record a (Z.max a b) (to_record r) /\ pr_id x = pr_id r).
+  { unfold x, bio_getitem_slice, bio_getslice. cbn [fst snd]. rewrite K. cbn. split; reflexivity. }
+  destruct Hx as [Hx Hi].
+  destruct (ann_has_topology (py_deepcopy (pr_annotations x))); cbn [bind];
+    eexists; (split; [reflexivity|]); cbn; repeat split; auto;
+    rewrite <- Hx; unfold to_record; reflexivity.
+Qed.
+
+Section TargetRecords.
+  Context (e : entity) (Hfit : fits e).
+  Let c := ent_cls e.
+  Let rec := ent_record e.
+  Let s := pr_seq rec.
+  Context (Hcirc : is_CircularRecord rec = true) (Htracks : well_tracked rec).
+
+  Lemma lshift_record (a : nat) : s <> [] ->
+    exists r', py_lshift rec (Z.of_nat a) = Ok r' /\ to_record r' = rotl_record (Z.of_nat a) (to_record rec)
+               /\ pr_id r' = pr_id rec /\ pr_kind r' = KCircularRecord.
+  Proof.
+    intros Hne. unfold py_lshift. fold rec. rewrite Hcirc.
+    destruct (CircularRecord_lshift_eq 0 rec (Z.of_nat a) Hne Htracks) as (r' & E & H1 & H2 & _ & Hk).
+    exists r'. repeat split; auto. apply Hk. unfold is_CircularRecord in Hcirc. destruct (pr_kind rec); congruence.
+  Qed.
+
+  (* what target_sequence() returns: the model's fragment — rotate to the first cut, keep (module)
+     or drop (vector) the first L letters, with every feature wholly inside and the generated source
+     feature naming the plasmid *)
+  Theorem target_record (matchf : entity -> exc seqmatch) (is_vector : bool) m a b :
+    matchf e = verdict_exc (typing c s (ent_circ e)) rec ->
+    typing c s (ent_circ e) = Valid m -> cut_span m = Some (a, b) -> (a <= b)%nat -> (b - a <= List.length s)%nat ->
+    let body (start_ end_ : Z) : exc pyrecord :=
+      t13 <- py_lshift rec start_ ;;
+      t14 <- py_getslice t13 (if is_vector then Some (end_ - start_) else None)
+                             (if is_vector then None else Some (end_ - start_)) ;;
+      t15 <- add_as_source rec t14 None ;; Ok t15 in
+    exists r, body (Z.of_nat a) (Z.of_nat b) = Ok r /\ pr_kind r = KSeqRecord /\
+      same_sf (to_record r) (fragment is_vector (Z.of_nat a) (Z.of_nat (b - a)) (pr_id rec) (to_record rec)).
+  Proof.
+    intros Hm Ht Hc Hab HL body. unfold body.
+    assert (Hne : s <> []) by (eapply typing_nonempty; eassumption).
+    destruct (lshift_record a Hne) as (r' & E & Hrec & Hid & Hk). rewrite E. cbn [bind].
+    replace (Z.of_nat b - Z.of_nat a) with (Z.of_nat (b - a)) by lia.
+    set (L := Z.of_nat (b - a)).
+    assert (Hn : py_len (pr_seq r') = Z.of_nat (List.length s)).
+    { change (pr_seq r') with (rseq (to_record r')). rewrite Hrec, rotl_record_seq.
+      unfold py_len. now rewrite rotl_length. }
+    destruct (getslice_circular_record r' (if is_vector then Some L else None) (if is_vector then None else Some L) Hk)
+      as (r2 & E2 & K2 & Hid2 & Hrec2).
+    rewrite E2. cbn [bind]. rewrite add_as_source_eq. cbn [bind].
+    eexists. split; [reflexivity|]. split; [exact K2|].
+    unfold same_sf, fragment, py_add_as_source. cbn [to_record rseq rfeats pr_seq pr_features pr_id].
+    change (pr_seq r2) with (rseq (to_record r2)). change (pr_features r2) with (rfeats (to_record r2)).
+    cbv zeta in Hrec2. rewrite Hn in Hrec2. rewrite Hrec2, Hrec. unfold zlen, py_len. fold s.
+    assert (HLn : py_norm (Z.of_nat (List.length s)) L = L)
+      by (unfold py_norm, L; destruct (Z.ltb_spec (Z.of_nat (b - a)) 0); lia).
+    destruct is_vector; rewrite ?HLn.
+    - replace (Z.max L (Z.of_nat (List.length s))) with (Z.of_nat (List.length s)) by (unfold L; lia).
+      split; reflexivity.
+    - replace (Z.max 0 L) with L by (unfold L; lia).
+      split; reflexivity.
+  Qed.
+
+  Lemma spans_ok (matchf : entity -> exc seqmatch) m a b :
+    matchf e = verdict_exc (typing c s (ent_circ e)) rec ->
+    typing c s (ent_circ e) = Valid m -> cut_span m = Some (a, b) ->
+    (t7 <- matchf e ;; t8 <- SeqMatch_span t7 1 ;; t9 <- py_getitem t8 0 ;;
+     t10 <- matchf e ;; t11 <- SeqMatch_span t10 2 ;; t12 <- py_getitem t11 1 ;; Ok (t9, t12))
+    = Ok (Z.of_nat a, Z.of_nat b).
+  Proof.
+    intros Hm Ht Hc. rewrite Hm, Ht. cbn [verdict_exc bind]. unfold mk_SeqMatch.
+    change 1 with (Z.of_nat 1). change 2 with (Z.of_nat 2). rewrite !SeqMatch_span_eq.
+    unfold cut_span in Hc.
+    destruct (span m 1) as [[a1 b1]|]; [|discriminate]. cbn [bind].
+    change (Z.of_nat 0) with 0. rewrite getitem_pair0. cbn [bind].
+    destruct (span m 2) as [[a2 b2]|]; [|discriminate]. cbn [bind].
+    change (Z.of_nat 1) with 1. rewrite getitem_pair1. cbn [bind]. now inversion Hc.
+  Qed.
+
+  Theorem module_target_record m a b :
+    typing c s (ent_circ e) = Valid m -> cut_span m = Some (a, b) -> (a <= b)%nat -> (b - a <= List.length s)%nat ->
+    exists r, AbstractModule_target_sequence e = Ok r /\ pr_kind r = KSeqRecord /\
+      same_sf (to_record r) (fragment false (Z.of_nat a) (Z.of_nat (b - a)) (pr_id rec) (to_record rec)).
+  Proof.
+    intros Ht Hc Hab HL. unfold AbstractModule_target_sequence. cbn [enz_is_3overhang]. fold rec.
+    rewrite (spans_ok AbstractModule_match m a b (AbstractModule_match_eq e Hfit) Ht Hc). cbn [bind].
+    exact (target_record AbstractModule_match false m a b (AbstractModule_match_eq e Hfit) Ht Hc Hab HL).
+  Qed.
+
+  Theorem vector_target_record m a b :
+    typing c s (ent_circ e) = Valid m -> cut_span m = Some (a, b) -> (a <= b)%nat -> (b - a <= List.length s)%nat ->
+    exists r, AbstractVector_target_sequence e = Ok r /\ pr_kind r = KSeqRecord /\
+      same_sf (to_record r) (fragment true (Z.of_nat a) (Z.of_nat (b - a)) (pr_id rec) (to_record rec)).
+  Proof.
+    intros Ht Hc Hab HL. unfold AbstractVector_target_sequence. cbn [enz_is_3overhang]. fold rec.
+    rewrite (spans_ok AbstractVector_match m a b (AbstractVector_match_eq e Hfit) Ht Hc). cbn [bind].
+    exact (target_record AbstractVector_match true m a b (AbstractVector_match_eq e Hfit) Ht Hc Hab HL).
+  Qed.
+End TargetRecords.
